@@ -370,3 +370,16 @@ var errNeg = errString("neg")
 type errString string
 
 func (e errString) Error() string { return string(e) }
+
+func okOldParam(n int) int {
+	if n > 3 {
+		n = 3
+	}
+	return n
+}
+func badOldParam(n int) int {
+	if n > 3 {
+		n = 3
+	}
+	return n
+}
